@@ -4,7 +4,7 @@ PROP = dict(
     title="Sparse Merkle proofs prove membership and non-membership exactly",
     family="smt", harness="smt", run_vo="Run/Smt.vo",
     theorems=["C14_incl_verify_iff", "C14_excl_verify_iff", "C14_incl_sound", "C14_excl_sound",
-              "C14_spec_incl_complete", "C14_spec_excl_complete"],
+              "C14_spec_incl_complete", "C14_spec_excl_complete", "C14_generate_proof"],
     open_statements=[],
     translators=[],
     quick_shards=8,
@@ -14,7 +14,8 @@ PROP = dict(
                   "key interface premise: kbit reads the bits of a key (get_bit_at_index_from_msb)"],
     assumptions=["soundness theorems (C14_incl_sound, C14_excl_sound): collision-freeness of the leaf/node hash functions and zero not being a hash output "
                  "(hash_ok, explicit premise; satisfiable: Merkle/SparseInst.v)",
-                 "the verify_iff and completeness theorems need no hash assumption"],
+                 "C14_generate_proof (model of generate_proof on persisted trees): the premises bundled in smt_iface incl. hash_ok",
+                 "the verify_iff and specification-level completeness theorems need no hash assumption"],
     rule=("trees built by histories over adversarial key pools (and by from_set followed by deletes); generate_proof for present keys, absent pool keys, last-bit siblings, "
           "prefix sharers, all-zero/all-one keys; mutation stream on the real proofs (drop/append/prepend/swap/replace/zero a side node, 256/257 side nodes, different key on / "
           "below the path, wrong or empty value, exclusion leaf claiming the queried key, leaf <-> placeholder, wrong leaf key/value, inclusion replayed as exclusion); verdict of the "
@@ -22,11 +23,12 @@ PROP = dict(
           "generated proofs compared with reference siblings; distinct = distinct (mutation class, key, length, verdict); non-trivial = non-empty proof set"),
     level_text=("Machine-checked proof (Coq) that the modelled verifiers accept exactly when the compact-tree recomputation from (key, leaf, side nodes) reaches the root, for "
                 "arbitrary proof sets and claimed leaves; that under collision-freeness (explicit premise) an accepted inclusion/exclusion proof implies membership with that "
-                "value / non-membership in ANY map with that root; and that the siblings along a key in the compact tree of a map verify (completeness, specification level); "
-                "the model is tied to the Rust code by a differential run including a structured mutation stream on every check"),
-    level_note=("Trusted: Coq kernel; hand-written L1 model tied by correspondence testing (testing, not proof); collision-freeness premise; harness. The statement that the "
-                "model of generate_proof returns the specification-level siblings (so that the kind of the generated proof equals membership) is listed under open_statements "
-                "until the L1 refinement proof covers it; it is exercised by the correspondence run and the reference-proof oracle."),
+                "value / non-membership in ANY map with that root; that the siblings along a key in the compact tree of a map verify (completeness); and that the model of "
+                "generate_proof, on every tree reached by a history, returns an inclusion proof exactly when the key is present, with exactly those siblings, and that this "
+                "proof verifies; the model is tied to the Rust code by a differential run including a structured mutation stream on every check"),
+    level_note=("Trusted: Coq kernel; hand-written L1 model tied to the Rust code by correspondence testing (testing, not proof); collision-freeness premise; harness. "
+                "Proofs generated on trees built by from_set rely on the from_set refinement, which is open (Properties/C12.v); they are exercised by the correspondence run "
+                "and the reference-proof oracle."),
     technique="Coq proof (loop/recursion equivalence, induction on the path with hash injectivity) + differential model/impl run with proof mutations",
     design_ref="6/C14",
 )
